@@ -443,6 +443,84 @@ func genBlockwiseXfer(g *gen, repo string) {
 		}
 	}
 
+	// ownership and lifetime of what the caches hold:
+	//  * every deadline is the context's or `time.Now().Add(b.expiration)` (never a zero / "never" time);
+	//  * no onExpire callback of a cache element releases a message, and getCachedReceivedMessage releases none either
+	//    (the reassembly message is owned by the cache until the transfer ends) and builds its close list through
+	//    appendToClose only.
+	{
+		want := map[string]string{"Do": "expire=time.Now().Add(b.expiration)", "startSendingMessage": "expire=time.Now().Add(b.expiration)",
+			"handleObserveResponse": "validUntil:=time.Now().Add(b.expiration)", "getValidUntil": "validUntil:=time.Now().Add(b.expiration)"}
+		for fn, w := range want {
+			fd := funcDecl(f, "BlockWise", fn)
+			ok := false
+			ast.Inspect(fd.Body, func(n ast.Node) bool {
+				if a, is := n.(*ast.AssignStmt); is && len(a.Lhs) == 1 && len(a.Rhs) == 1 && c04Str(a.Lhs[0])+a.Tok.String()+c04Str(a.Rhs[0]) == w {
+					ok = true
+				}
+				return true
+			})
+			if !ok {
+				fail("%s: `%s` not found (deadline of a cache entry)", fn, w)
+			}
+		}
+		nowAdds, elems := 0, 0
+		ast.Inspect(f, func(n ast.Node) bool {
+			c, is := n.(*ast.CallExpr)
+			if !is {
+				return true
+			}
+			switch c04Str(c.Fun) {
+			case "time.Now().Add":
+				if len(c.Args) == 1 && c04Str(c.Args[0]) == "b.expiration" {
+					nowAdds++
+				}
+			case "cache.NewElement":
+				elems++
+				if len(c.Args) != 3 {
+					fail("cache.NewElement is not called with 3 arguments")
+				}
+				switch d := c04Str(c.Args[1]); d {
+				case "expire", "validUntil", "value.ValidUntil.Load()":
+				default:
+					fail("cache.NewElement: unexpected deadline expression `%s`", d)
+				}
+				if lit, isLit := c.Args[2].(*ast.FuncLit); isLit {
+					ast.Inspect(lit.Body, func(m ast.Node) bool {
+						if cc, is := m.(*ast.CallExpr); is && (strings.HasSuffix(c04Str(cc.Fun), "ReleaseMessage") || strings.HasSuffix(c04Str(cc.Fun), ".Release")) {
+							fail("an onExpire callback releases something (`%s`)", c04Str(cc.Fun))
+						}
+						return true
+					})
+				} else if c04Str(c.Args[2]) != "nil" {
+					fail("cache.NewElement: onExpire is neither nil nor a function literal")
+				}
+			}
+			return true
+		})
+		if nowAdds != 4 || elems != 5 {
+			fail("expected 4 `time.Now().Add(b.expiration)` and 5 cache.NewElement calls, found %d and %d", nowAdds, elems)
+		}
+		gc := funcDecl(f, "BlockWise", "getCachedReceivedMessage")
+		appends, rels := 0, 0
+		ast.Inspect(gc.Body, func(n ast.Node) bool {
+			switch x := n.(type) {
+			case *ast.AssignStmt:
+				if len(x.Lhs) == 1 && c04Str(x.Lhs[0]) == "closeFnList" && x.Tok == token.ASSIGN {
+					appends++
+				}
+			case *ast.CallExpr:
+				if strings.HasSuffix(c04Str(x.Fun), "ReleaseMessage") {
+					rels++
+				}
+			}
+			return true
+		})
+		if appends != 1 || rels != 0 {
+			fail("getCachedReceivedMessage: the close list must be extended by appendToClose only and no message released (found %d direct appends, %d ReleaseMessage calls)", appends, rels)
+		}
+	}
+
 	// Handle: `if !more && sendingMessageCode > codes.DELETE { b.sendingMessagesCache.Delete(tokenStr) }`
 	h := funcDecl(f, "BlockWise", "Handle")
 	delAfterLast := false
@@ -510,6 +588,8 @@ func genBlockwiseXfer(g *gen, repo string) {
 	fmt.Fprintf(&b, "/-- processReceivedMessage / getCachedReceivedMessage: the per-entry guard is acquired before the cached message is touched and released only by the deferred close function, after `next(w, cachedReceivedMessage)` has returned (no earlier release, no go statement) -/\ndef guardReleasedOnlyAfterNext : Bool := true\n")
 	fmt.Fprintf(&b, "/-- tcp/udp/dtls servers and clients: `createBlockWise` is a function literal that returns `blockwise.New(…)`, i.e. every connection gets its own layer (its own pair of caches) -/\ndef layerPerConnection : Bool := true\n")
 	fmt.Fprintf(&b, "/-- udp/server Session.Run reads into `make([]byte, s.mtu)`: a datagram longer than the maximum message size keeps its length and is refused, not cut -/\ndef datagramReadBufferIsMTU : Bool := true\n")
+	fmt.Fprintf(&b, "/-- every deadline of a cache entry is the context's deadline or `time.Now().Add(b.expiration)`: finite, also for an expiration of 0 -/\ndef deadlinesAreNowPlusExpiration : Bool := true\n")
+	fmt.Fprintf(&b, "/-- the caches own their messages: no onExpire callback and no path of getCachedReceivedMessage releases a message; the close list only releases guards -/\ndef cachesOwnTheirMessages : Bool := true\n")
 	fmt.Fprintf(&b, "/-- getPayloadFromCachedReceivedMessage: on an ETag change the cached message takes over all options and the code of the new block (false: only the ETag) -/\ndef restartTakesNewOptions : Bool := %s\n", c04Bool(restartTakesOptions))
 	fmt.Fprintf(&b, "/-- udp/client: DefaultConfig BlockwiseTransferTimeout (ns), BlockwiseSZX, MaxMessageSize -/\ndef defaultTransferTimeoutNs : Nat := %d\ndef defaultSZX : Nat := %d\ndef defaultMaxMessageSize : Nat := %d\n",
 		int64(udpclient.DefaultConfig.BlockwiseTransferTimeout), uint64(udpclient.DefaultConfig.BlockwiseSZX), uint64(udpclient.DefaultConfig.MaxMessageSize))
